@@ -83,6 +83,19 @@ async fn handle_connection(
     }
 }
 
+#[cfg(datacake_verif)]
+/// Verification hook: runs the server's connection handler on an in-process request.
+pub(crate) async fn verif_handle(
+    req: Request<hyper::Body>,
+    state: ServerState,
+    remote_addr: SocketAddr,
+) -> Response<hyper::Body> {
+    match handle_connection(req, state, remote_addr).await {
+        Ok(r) => r,
+        Err(e) => match e {},
+    }
+}
+
 async fn handle_message(
     req: Request<hyper::Body>,
     state: ServerState,
